@@ -136,3 +136,14 @@ CHECKS["C07"] = hist_check("C07",
     "mapped (minus regions whose munmap the shim refused). Non-trivial = the armed fault was hit and at least one API call returned NULL because of it. Distinct = hash of the IR text.",
     [R("rel", 1600000, 12000000, 2.0), R("sec", 800000, 6000000, 1.0)], level="fault_enumeration",
     assumptions=["debug build not used: mi_os_decommit_ex asserts that the OS call cannot fail (debug-only statement)", "faults are injected at the libc call boundary of src/prim/unix/prim.c (mmap/munmap/mprotect/madvise)"])
+
+CHECKS["C15"] = hist_check("C15",
+    "cases = arena shapes x histories: 1-2 arenas from mi_reserve_os_memory_ex (64-192 MiB, commit 0/1, exclusive 0/1) or mi_manage_os_memory_ex on the middle part of a "
+    "larger harness mapping with misalignment {0,4K,64K,1M,31M} and odd/too small sizes; heaps bound to them (mi_heap_new_in_arena / mi_heap_new_ex) next to the backing heap and "
+    "mi_heap_new heaps on one thread; bound heaps are filled with segment-sized blocks until NULL, freed, refilled; helper threads with an arena-bound heap exit leaving live "
+    "blocks, followed by allocation from unbound and bound heaps. Oracle: a block from a heap bound to arena A lies inside mi_arena_area(A); a block from any heap not bound to an "
+    "exclusive arena E never intersects E (also after adoption); NULL (never an outside address) when A is full; an empty arena accepts exactly block_count one-block allocations; "
+    "mi_arena_area is inside the region handed to mi_manage_os_memory_ex and no mprotect/madvise/munmap touches the caller's mapping outside it; plus the C01 model. Non-trivial = "
+    "an unbound heap allocated while a live block existed in an exclusive arena, or a bound heap returned NULL after a capacity probe. Distinct = hash of the IR text.",
+    [R("rel", 6000, 100000, 2.0), R("dbg", 2500, 30000, 1.0)],
+    assumptions=["requests of more than one arena block are only asserted to lie inside the arena, not to succeed"])
